@@ -36,7 +36,13 @@ def record(plt):
     fig = plt.gcf()
     if not fig.axes:
         return None
-    ax = fig.axes[0]
+
+    def weight(a):
+        nm = sum(len(c.get_offsets()) for c in a.collections) + sum(1 for ln in a.lines if ln.get_marker() not in (None, "None", "", " "))
+        return (nm, sum(1 for r in a.patches if isinstance(r, Rectangle)), len(a.patches))
+    # the axes that carries the markers (or bars): in a figure laid out by the caller the plot belongs to the caller's current
+    # axes, and the regions, title and limits are read from that same axes
+    ax = max(fig.axes, key=weight)
     markers = []
     for col in ax.collections:
         for off in col.get_offsets():
@@ -81,10 +87,24 @@ STATE = {"after_save": False}
 
 def fresh_canvas(plt):
     """The user closes what a show_* call displayed; after a save_* call the library itself must have closed the figure,
-    so nothing is cleaned up here and a figure left open would show up in the next plot."""
+    so nothing is cleaned up here and a figure left open would show up in the next plot.  Now and then the caller has laid
+    out a figure of its own and made one of its panels current (the pyplot entry points draw on the current axes)."""
     if not STATE["after_save"]:
         plt.close("all")
     STATE["after_save"] = False
+    rng = STATE.get("rng")
+    if rng is not None and rng.random() < 0.3:
+        kind = rng.choice(["two-panels", "add_axes", "gridspec"])
+        if kind == "two-panels":
+            fig, axs = plt.subplots(1, 2)
+            plt.sca(axs[rng.choice([0, 1])])
+        elif kind == "add_axes":
+            fig = plt.figure()
+            fig.add_axes([0.1, 0.1, 0.5, 0.6])
+        else:
+            fig = plt.figure()
+            gs = fig.add_gridspec(2, 2)
+            fig.add_subplot(gs[1, 0])
 
 
 def figure_event(ctx, plt, workdir, name, fn, kind, seqs=None, coords=None, getfig=False, save=False, title="", labels=(), xlim=1, ylim=1):
@@ -150,6 +170,7 @@ def scaled_polys(polys):
 def run(ctx):
     lc = common.load_repo(ctx.repo)
     STATE["lc"] = lc
+    STATE["rng"] = ctx.rng
     plt = mpl()
     workdir = os.path.join(ctx.work, "figs")
     os.makedirs(workdir, exist_ok=True)
